@@ -461,6 +461,37 @@ struct Prog {
         for (int k = 0; k < extra; k++) in.vertProperties[v * in.numProp + 3 + k] = pmode == 0 ? la::dot(a[k], p) + b[k] : r.uni(-2, 2);
       }
       desc += pmode == 0 ? ",global-affine" : ",per-vertex-random";
+      // PARTIAL property seams: a few corners get their own property vertex
+      // (same position, other values, tied back by the merge vectors) while the
+      // other end of the flanking edges stays shared - the end point of a UV /
+      // colour seam path. Per-triangle face IDs keep every face decidable.
+      if (extra > 0 && r.chance(0.4)) {
+        int k = r.range(1, 6);
+        for (int q = 0; q < k; q++) {
+          size_t t = r.below(nt);
+          int kk = r.range(0, 2);
+          uint64_t v = in.triVerts[3 * t + kk];
+          if (v >= nv0) continue;  // already a duplicate
+          uint64_t nvNew = in.vertProperties.size() / in.numProp;
+          for (size_t j = 0; j < in.numProp; j++) in.vertProperties.push_back(in.vertProperties[v * in.numProp + j]);
+          for (int j = 0; j < extra; j++) in.vertProperties[nvNew * in.numProp + 3 + j] += r.uni(1, 10) * (r.chance(0.5) ? 1 : -1);
+          in.triVerts[3 * t + kk] = nvNew;
+          if (r.chance(0.5))  // extend the seam over one more triangle of the fan
+            for (size_t t2 = 0; t2 < nt; t2++) {
+              if (t2 == t) continue;
+              bool done = false;
+              for (int j = 0; j < 3; j++)
+                if (in.triVerts[3 * t2 + j] == v) { in.triVerts[3 * t2 + j] = nvNew; done = true; }
+              if (done) break;
+            }
+          in.mergeFromVert.push_back(nvNew);
+          in.mergeToVert.push_back(v);
+        }
+        perTri = true;
+        pairs = false;
+        desc += ",partial-seams";
+        c.count("originals_with_partial_seams");
+      }
     }
     if (perTri || pairs) {
       in.faceID.resize(nt);
